@@ -13,7 +13,7 @@
    The refutations are closed witnesses decided by the verified deciders (vm_compute). *)
 From Coq Require Import List NArith Bool Lia.
 Import ListNotations.
-From V Require Import Fix Sem Prod Incl Lang.
+From V Require Import Fix Sem Prod Incl TrimDefs TrimProofs Lang.
 
 Local Open Scope N_scope.
 
@@ -93,4 +93,28 @@ Proof.
       - intros [q [Hf Hr]]. exists q. split; [apply eval_spec; auto | apply memN_In; auto].
       - intros [q [Hr Hf]]. exists q. split; [apply memN_In; auto | apply eval_spec; auto]. }
     rewrite !D. vm_compute. repeat split; auto; intros E; discriminate E.
+Qed.
+
+(* D14: the rules of an earlier right operand left behind in a table that the left operand shares become live in a later union.
+   A = {f(a,a)} over states 100, 101;  B = g+(b) over states 0, 1;  C = {g(a)} over states 0, 1 (B and C re-use numbers, each is
+   disjoint from A). The table "rules A ++ rules B" (what UnionDisjointStates(A, B) left in A's shared table) united with C accepts
+   g(g(a)), which is neither in L(A) nor in L(C). *)
+Definition dA : ta := {| rules := [mk 0 [] 100; mk 3 [100; 100] 101]; finals := [101] |}.
+Definition dB : ta := {| rules := [mk 1 [] 0; mk 2 [0] 1; mk 2 [1] 1]; finals := [1] |}.
+Definition dC : ta := {| rules := [mk 0 [] 0; mk 2 [0] 1]; finals := [1] |}.
+Definition polluted (A B : ta) : ta := {| rules := rules A ++ rules B; finals := finals A |}.     (* A after the call: same final states *)
+Theorem ud_garbage_becomes_live :
+  disjoint (states dA) (states dB) /\ disjoint (states dA) (states dC) /\
+  (forall t, accepts (polluted dA dB) t <-> accepts dA t) /\
+  exists t, accepts (ta_app (polluted dA dB) dC) t /\ ~ accepts dA t /\ ~ accepts dC t.
+Proof.
+  assert (D : forall A t, accepts A t <-> existsb (fun q => memN q (finals A)) (eval A t) = true).
+  { intros A t. rewrite existsb_exists. split.
+    - intros [q [Hf Hr]]. exists q. split; [apply eval_spec; auto | apply memN_In; auto].
+    - intros [q [Hr Hf]]. exists q. split; [apply memN_In; auto | apply eval_spec; auto]. }
+  split; [intros x Hx Hy; vm_compute in Hx, Hy; repeat (destruct Hx as [<-|Hx]; [repeat (destruct Hy as [E|Hy]; [discriminate E|]); destruct Hy|]); destruct Hx|].
+  split; [intros x Hx Hy; vm_compute in Hx, Hy; repeat (destruct Hx as [<-|Hx]; [repeat (destruct Hy as [E|Hy]; [discriminate E|]); destruct Hy|]); destruct Hx|].
+  split.
+  - apply equiv_dec_spec. vm_compute. reflexivity.
+  - exists (Node 2 [Node 2 [Node 0 []]]). rewrite !D. vm_compute. repeat split; auto; intros E; discriminate E.
 Qed.
